@@ -4,6 +4,8 @@ import (
 	"context"
 	"errors"
 	"testing"
+	"testing/synctest"
+	"time"
 
 	"github.com/NethermindEth/juno/blockchain"
 	"github.com/NethermindEth/juno/blockchain/networks"
@@ -27,6 +29,10 @@ const witnessBatchDefault = 96 << 20 // pruner's defaultTargetBatchByteSize
 
 // witnessBlock appends a hand-made block with the given diff to ch.
 func witnessBlock(ch *gen.Chain, ver string, d *core.StateDiff, classes map[felt.Felt]core.ClassDefinition) *gen.Block {
+	return witnessBlockAt(ch, ver, d, classes, chainEpoch+uint64(len(ch.Blocks)))
+}
+
+func witnessBlockAt(ch *gen.Chain, ver string, d *core.StateDiff, classes map[felt.Felt]core.ClassDefinition, ts uint64) *gen.Block {
 	pre, num, ph := ref.NewState(), uint64(len(ch.Blocks)), felt.Zero
 	if num > 0 {
 		pre, ph = ch.Blocks[num-1].Post, *ch.Blocks[num-1].B.Hash
@@ -36,7 +42,7 @@ func witnessBlock(ch *gen.Chain, ver string, d *core.StateDiff, classes map[felt
 		stats.HarnessError("witness block %d: %v", num, err)
 	}
 	one := gen.F(1)
-	h := &core.Header{ParentHash: &ph, Number: num, SequencerAddress: &one, Timestamp: chainEpoch + num, ProtocolVersion: ver,
+	h := &core.Header{ParentHash: &ph, Number: num, SequencerAddress: &one, Timestamp: ts, ProtocolVersion: ver,
 		EventsBloom: core.EventsBloom(nil), L1GasPriceETH: &one, L1GasPriceSTRK: &one,
 		L1DataGasPrice: &core.GasPrice{PriceInWei: &one, PriceInFri: &one}, L2GasPrice: &core.GasPrice{PriceInWei: &one, PriceInFri: &one}}
 	if classes == nil {
@@ -173,4 +179,68 @@ func TestKnownCancelledPruneDropsParentMapping(t *testing.T) {
 	t.Logf("%s: cancelled PruneUpto(10) pruned %d blocks, oldest kept %d (database says %d); state at %d by number: %v, by hash: %v (reproduced=%v)",
 		kfCancelParentMapping, pruned, kept, oldestBlk, kept-1, errNum, errHash, reproduced)
 	stats.KnownFindingWitness(t, kfCancelParentMapping, reproduced)
+}
+
+// TestKnownMinAgeSampleStaleAfterReorg drives the real service (pruner.Run inside a synctest bubble, virtual
+// clock): min-age 1h, 1 retained block. 18 blocks older than min-age are on disk when the service starts, so
+// the start-up sample finds no young block and sets the min-age floor to the head (17). A reorg then replaces
+// blocks 16 and 17 by blocks that are 100 s old and the chain grows to 19 while the L1 head is ahead: the
+// L2 path computes min(sample 17, head-1) and prunes the replacement block 16, which is younger than min-age.
+func TestKnownMinAgeSampleStaleAfterReorg(t *testing.T) {
+	if !stats.Known(kfMinAgeStaleAfterReorg) {
+		t.Skipf("%s is not listed as known", kfMinAgeStaleAfterReorg)
+	}
+	reproduced := false
+	bubble(t, func() {
+		now := uint64(chainEpoch + 10000)
+		time.Sleep(time.Unix(int64(now), 0).Sub(time.Now()))
+		u := &gen.Universe{Net: &networks.Sepolia}
+		ch := gen.NewChain(u, gen.Opts{})
+		d := newFdb(memory.New())
+		n := node.New(false, d, u.Net)
+		empty := func(ts uint64) *gen.Block {
+			df := core.EmptyStateDiff()
+			b := witnessBlockAt(ch, "0.13.2", &df, nil, ts)
+			if err := n.Store(b); err != nil {
+				stats.HarnessError("witness: store %d: %v", b.Num(), err)
+			}
+			return b
+		}
+		for i := uint64(0); i < 18; i++ {
+			empty(chainEpoch + i) // about 10000 s old
+		}
+		cf := cfg{retained: 1, l2Per: 1, minAge: time.Hour}
+		s, err := startSession(d, cf, u) // start-up sample: no block within min-age -> floor sample = head = 17
+		if err != nil {
+			stats.HarnessError("witness: %v", err)
+		}
+		defer s.stop()
+		for i := 0; i < 2; i++ { // reorg: blocks 17 and 16 are undone
+			if err := s.n.BC.RevertHead(); err != nil {
+				stats.HarnessError("witness: revert: %v", err)
+			}
+			ch.Blocks = ch.Blocks[:len(ch.Blocks)-1]
+		}
+		if err := s.n.BC.SetL1Head(&core.L1Head{BlockNumber: 26, BlockHash: gen.FP(1), StateRoot: gen.FP(2)}); err != nil {
+			stats.HarnessError("witness: SetL1Head: %v", err)
+		}
+		var young *gen.Block
+		for num := 16; num <= 19; num++ {
+			df := core.EmptyStateDiff()
+			b := witnessBlockAt(ch, "0.13.2", &df, nil, now-100+uint64(num-16))
+			if err := s.n.Store(b); err != nil {
+				stats.HarnessError("witness: store %d: %v", b.Num(), err)
+			}
+			if num == 16 {
+				young = b
+			}
+			s.l2.Send(b.B)
+			synctest.Wait()
+		}
+		o, _, _ := oldest(d)
+		age := uint64(time.Now().Unix()) - young.B.Timestamp
+		reproduced = o > 16 && age < 3600 && len(s.takeErrs()) == 0
+		t.Logf("%s: oldest retained block %d; replacement block 16 is %d s old (min-age 3600 s) (reproduced=%v)", kfMinAgeStaleAfterReorg, o, age, reproduced)
+	})
+	stats.KnownFindingWitness(t, kfMinAgeStaleAfterReorg, reproduced)
 }
